@@ -1641,8 +1641,8 @@ def _dump_provenance(f: TextIO, data: IOData, source: str) -> Union[list[dict], 
         if isinstance(provenance, dict):
             return [provenance, new_provenance]
         if isinstance(provenance, list):
-            provenance.append(new_provenance)
-            return provenance
+            # Do not modify the list of the IOData object.
+            return [*provenance, new_provenance]
         raise DumpError("QCSchema provenance must be either a dict or list of dicts.", f)
     return new_provenance
 
